@@ -1,6 +1,6 @@
-//! C12: resource tree traversal, lookup, fsck and icon-group reassembly — implementation side.
+//! C12: resource tree traversal, lookup, fsck and icon- / cursor-group reassembly — implementation side.
 //!
-//! Cases:  res place=<0..15> va=<u32> depth=<d> budget=<b> sec=<hex> q=<queries> exp=<items|-> expfsck=<ok|err|-> ico=<hex|->
+//! Cases:  res place=<0..15> va=<u32> depth=<d> budget=<b> sec=<hex> q=<queries> exp=<items|-> expfsck=<ok|err|-> ico=<hex|-> cur=<hex|->
 //!         pe  (one smoke path through Pe::resources() on a mapped PE32+ view) len= fill= hdr= pokes= place= rva= size= depth= budget=
 //! The section writer below is independent of pelite: explicit offsets from the PE/COFF specification.
 use pelite::image::IMAGE_DATA_DIRECTORY;
@@ -235,7 +235,7 @@ struct IconSet {
 	ty: u16,                 // 1 icon, 2 cursor
 	images: Vec<(u16, Vec<u8>)>, // (id, data)
 	heads: Vec<[u8; 12]>,
-	ico: Option<Vec<u8>>,    // the original file when the group is consistent
+	ico: Option<Vec<u8>>,    // the original file (.ico, or .cur for a real cursor set) when the group is consistent
 	group: Vec<u8>,          // GRPICONDIR bytes
 }
 fn gen_iconset(rng: &mut Rng, ty: u16, first_id: u16) -> IconSet {
@@ -278,8 +278,117 @@ fn gen_iconset(rng: &mut Rng, ty: u16, first_id: u16) -> IconSet {
 	IconSet { ty, images, heads, ico: Some(ico), group }
 }
 
+// ---------------------------------------------------------------------------------------------
+// real cursors.  Written from the format descriptions only (MSDN "Icons in Win32", Raymond Chen "The format of icon
+// resources", the NIco wiki; see the references at the top of src/resources/group.rs), independent of pelite and of the
+// icon writer above:
+//   .cur file        ICONDIR { 0, 2, n }, then n CURSORDIRENTRY { bWidth, bHeight, bColorCount, bReserved, wXHotspot: u16,
+//                    wYHotspot: u16, dwBytesInRes: u32, dwImageOffset: u32 }, then the n DIBs back to back
+//   RT_GROUP_CURSOR  { 0, 2, n }, then n entries { wWidth: u16, wHeight: u16 (XOR + AND mask: twice the height), wPlanes: u16,
+//                    wBitCount: u16, dwBytesInRes: u32 (counts the hotspot), nId: u16 }
+//   RT_CURSOR nId    { wXHotspot: u16, wYHotspot: u16 } followed by the DIB
+
+/// one image of a .cur file, as a cursor editor sees it
+#[derive(Clone, Debug)]
+struct CurImage {
+	w: u32, // 1..=256
+	h: u32, // 1..=256
+	hx: u16,
+	hy: u16,
+	dib: Vec<u8>,
+}
+/// the .cur file
+fn write_cur_file(images: &[CurImage]) -> Vec<u8> {
+	let n = images.len();
+	let mut f = Vec::new();
+	f.extend_from_slice(&[0, 0, 2, 0]);
+	f.extend_from_slice(&(n as u16).to_le_bytes());
+	let mut off = 6 + 16 * n as u32;
+	for im in images {
+		f.push((im.w & 0xff) as u8); // 256 is stored as 0
+		f.push((im.h & 0xff) as u8);
+		f.push(0); // bColorCount
+		f.push(0); // bReserved
+		f.extend_from_slice(&im.hx.to_le_bytes());
+		f.extend_from_slice(&im.hy.to_le_bytes());
+		f.extend_from_slice(&(im.dib.len() as u32).to_le_bytes());
+		f.extend_from_slice(&off.to_le_bytes());
+		off += im.dib.len() as u32;
+	}
+	for im in images {
+		f.extend_from_slice(&im.dib);
+	}
+	f
+}
+/// what a resource compiler stores for that file: the RT_GROUP_CURSOR bytes and the RT_CURSOR resources (id, payload)
+fn compile_cur(images: &[CurImage], first_id: u16) -> (Vec<u8>, Vec<(u16, Vec<u8>)>) {
+	let word = |d: &[u8], o: usize| -> u16 { d.get(o).copied().unwrap_or(0) as u16 | (d.get(o + 1).copied().unwrap_or(0) as u16) << 8 };
+	let mut group = vec![0u8, 0, 2, 0];
+	group.extend_from_slice(&(images.len() as u16).to_le_bytes());
+	let mut res = Vec::new();
+	for (k, im) in images.iter().enumerate() {
+		let id = first_id + k as u16;
+		group.extend_from_slice(&(im.w as u16).to_le_bytes());
+		group.extend_from_slice(&((2 * im.h) as u16).to_le_bytes());
+		group.extend_from_slice(&word(&im.dib, 12).to_le_bytes()); // biPlanes
+		group.extend_from_slice(&word(&im.dib, 14).to_le_bytes()); // biBitCount
+		group.extend_from_slice(&(4 + im.dib.len() as u32).to_le_bytes());
+		group.extend_from_slice(&id.to_le_bytes());
+		let mut payload = Vec::new();
+		payload.extend_from_slice(&im.hx.to_le_bytes());
+		payload.extend_from_slice(&im.hy.to_le_bytes());
+		payload.extend_from_slice(&im.dib);
+		res.push((id, payload));
+	}
+	(group, res)
+}
+fn gen_cursorset(rng: &mut Rng, first_id: u16) -> IconSet {
+	let n = match rng.below(8) { 0 => 0, 1 | 2 => 1, _ => rng.range(1, 4) } as usize;
+	let mut images = Vec::new();
+	for _ in 0..n {
+		let (w, h) = match rng.below(10) {
+			0 | 1 => (32, 32),
+			2 => (48, 48),
+			3 => (256, 256),
+			4 => (16, 16),
+			5 => (64, 64),
+			6 => *rng.pick(&[(1u32, 1u32), (255, 255), (128, 128), (32, 64), (256, 1), (1, 256)]),
+			_ => (rng.range(1, 256) as u32, rng.range(1, 256) as u32),
+		};
+		let hot = |rng: &mut Rng, m: u32| -> u16 {
+			match rng.below(5) { 0 => 0, 1 => (m - 1) as u16, 2 => 0xFFFF, 3 => (m / 2) as u16, _ => rng.below(m as u64) as u16 }
+		};
+		let (hx, hy) = (hot(rng, w), hot(rng, h));
+		let dib: Vec<u8> = match rng.below(8) {
+			0 => Vec::new(),
+			1 => (0..rng.range(1, 17)).map(|_| rng.byte()).collect(), // shorter than a header, odd sizes
+			2 => {
+				let mut d = b"\x89PNG\r\n\x1a\n".to_vec();
+				d.extend((0..rng.below(20)).map(|_| rng.byte()));
+				d
+			},
+			_ => {
+				// BITMAPINFOHEADER + some bits (not a full bitmap: the reassembly does not look inside)
+				let mut d = Vec::new();
+				d.extend_from_slice(&40u32.to_le_bytes());
+				d.extend_from_slice(&w.to_le_bytes());
+				d.extend_from_slice(&(2 * h).to_le_bytes());
+				d.extend_from_slice(&1u16.to_le_bytes());
+				d.extend_from_slice(&(*rng.pick(&[1u16, 4, 8, 24, 32])).to_le_bytes());
+				d.extend_from_slice(&[0u8; 24]);
+				d.extend((0..rng.below(38)).map(|_| rng.byte()));
+				d
+			},
+		};
+		images.push(CurImage { w, h, hx, hy, dib });
+	}
+	let cur = write_cur_file(&images);
+	let (group, res) = compile_cur(&images, first_id);
+	IconSet { ty: 2, images: res, heads: Vec::new(), ico: Some(cur), group }
+}
+
 /// a tree shaped like a real resource section: type / name / language
-fn gen_typed(rng: &mut Rng, t: &mut Tree, ico_out: &mut Option<Vec<u8>>) -> usize {
+fn gen_typed(rng: &mut Rng, t: &mut Tree, ico_out: &mut Option<Vec<u8>>, cur_out: &mut Option<Vec<u8>>) -> usize {
 	let root = t.dir();
 	let mut root_ents: Vec<Ent> = Vec::new();
 	let lang = |t: &mut Tree, rng: &mut Rng, bytes: Vec<u8>| -> usize {
@@ -294,7 +403,10 @@ fn gen_typed(rng: &mut Rng, t: &mut Tree, ico_out: &mut Option<Vec<u8>>) -> usiz
 			continue;
 		}
 		let first_id = rng.range(1, 5) as u16;
-		let mut set = gen_iconset(rng, ty, first_id);
+		// cursors: three in four are real cursor sets (the .cur file is kept as the expectation), the rest are arbitrary
+		// bytes in a group of type 2 (compared through the decoded pieces only)
+		let real_cur = ty == 2 && rng.chance(3, 4);
+		let mut set = if real_cur { gen_cursorset(rng, first_id) } else { gen_iconset(rng, ty, first_id) };
 		// image directory
 		let idir = t.dir();
 		let mut ients = Vec::new();
@@ -341,6 +453,9 @@ fn gen_typed(rng: &mut Rng, t: &mut Tree, ico_out: &mut Option<Vec<u8>>) -> usiz
 		root_ents.push(Ent { name: NameSpec::Id(gty), tgt: Tgt::Dir(gdir) });
 		if ty == 1 {
 			*ico_out = set.ico.clone();
+		}
+		else if real_cur {
+			*cur_out = set.ico.clone();
 		}
 		let _ = &set.heads;
 	}
@@ -453,11 +568,15 @@ fn gen(rng: &mut Rng, i: u64) -> String {
 	if i % 97 == 96 || i % 97 == 48 {
 		return gen_pe(rng);
 	}
+	if i % 41 == 7 {
+		return gen_limits(rng);
+	}
 	let mut t = Tree::default();
 	let mut ico: Option<Vec<u8>> = None;
+	let mut cur: Option<Vec<u8>> = None;
 	let typed = rng.chance(1, 2);
 	let fdepth = rng.range(1, 4) as u32;
-	let root = if typed { gen_typed(rng, &mut t, &mut ico) } else { gen_free(rng, &mut t, fdepth) };
+	let root = if typed { gen_typed(rng, &mut t, &mut ico, &mut cur) } else { gen_free(rng, &mut t, fdepth) };
 	let va: u32 = match rng.below(8) { 0 => 0, 1 => 0xFFFF_F000, 2 => 0x1002, 3 => rng.below(0x10000) as u32, _ => 0x1000 * rng.range(1, 64) as u32 };
 	// blobs (icon groups among them) at offsets that are 2 mod 4: valid for everything built from u16 halves
 	if rng.chance(1, 4) {
@@ -479,7 +598,7 @@ fn gen(rng: &mut Rng, i: u64) -> String {
 					let ok = match e0.tgt { Tgt::Data(_) => true, Tgt::Dir(j) => j > b, Tgt::Raw(_) => false };
 					if ok && matches!(e0.name, NameSpec::Id(_)) {
 						t.dirs[b].ents.push(Ent { name: NameSpec::Id(0x7000 + rng.below(16) as u32), tgt: e0.tgt });
-						ico = None;
+						ico = None; cur = None;
 						expfsck = "-"; // sharing may exceed the entry budget
 					}
 				}
@@ -503,7 +622,7 @@ fn gen(rng: &mut Rng, i: u64) -> String {
 				t.dirs[a].ents.push(Ent { name: NameSpec::Id(0x6000 + rng.below(4) as u32), tgt: Tgt::Dir(b) });
 			}
 			wf = false;
-			ico = None;
+			ico = None; cur = None;
 			expfsck = if is_reachable(&t, root, a) { "err" } else { "-" };
 		},
 		2 => {
@@ -512,7 +631,7 @@ fn gen(rng: &mut Rng, i: u64) -> String {
 			let v = match rng.below(6) { 0 => 0xFFFF_FFF0u32, 1 => 0x7FFF_FFF0, 2 => 0x8000_0000 | 0x7FFF_FFF0, 3 => 0x8000_0002, 4 => 2, _ => 0x8000_0000 | 0x10000 };
 			t.dirs[a].ents.push(Ent { name: NameSpec::Id(0x5000), tgt: Tgt::Raw(v) });
 			wf = false;
-			ico = None;
+			ico = None; cur = None;
 			expfsck = if is_reachable(&t, root, a) { "err" } else { "-" };
 		},
 		3 => {
@@ -522,7 +641,7 @@ fn gen(rng: &mut Rng, i: u64) -> String {
 			let da = t.data(vec![1, 2, 3], 0);
 			t.dirs[a].ents.insert(0, Ent { name: NameSpec::RawName(v), tgt: Tgt::Data(da) });
 			wf = false;
-			ico = None;
+			ico = None; cur = None;
 			expfsck = if is_reachable(&t, root, a) { "err" } else { "-" };
 		},
 		4 => {
@@ -536,7 +655,7 @@ fn gen(rng: &mut Rng, i: u64) -> String {
 					_ => t.datas[a].otd_delta = 0xFFFF_FFFF - va as i64 - 8,
 				}
 				wf = false;
-				ico = None;
+				ico = None; cur = None;
 				expfsck = "-";
 			}
 		},
@@ -545,7 +664,7 @@ fn gen(rng: &mut Rng, i: u64) -> String {
 			for d in t.datas.iter_mut() {
 				d.odd = rng.chance(1, 2);
 			}
-			ico = None;
+			ico = None; cur = None;
 		},
 		7 | 8 => {
 			// two entries with the same name: lookups must return the first one
@@ -555,7 +674,7 @@ fn gen(rng: &mut Rng, i: u64) -> String {
 				let nm = t.dirs[a].ents[k].name.clone();
 				let da = t.data(gen_blob(rng), 7);
 				t.dirs[a].ents.insert(k + 1, Ent { name: nm, tgt: Tgt::Data(da) });
-				ico = None;
+				ico = None; cur = None;
 			}
 		},
 		6 => {
@@ -566,7 +685,7 @@ fn gen(rng: &mut Rng, i: u64) -> String {
 			t.dirs[a].named_override = Some((k, n - k));
 			wf = false;
 			expfsck = "-";
-			ico = None;
+			ico = None; cur = None;
 		},
 		_ => {},
 	}
@@ -591,14 +710,14 @@ fn gen(rng: &mut Rng, i: u64) -> String {
 				}
 			}
 			wf = false;
-			ico = None;
+			ico = None; cur = None;
 			expfsck = "-";
 		},
 		1 => {
 			let cut = rng.below(sec.len() as u64 + 1) as usize;
 			sec.truncate(cut);
 			wf = false;
-			ico = None;
+			ico = None; cur = None;
 			expfsck = "-";
 		},
 		_ => {},
@@ -620,7 +739,70 @@ fn gen(rng: &mut Rng, i: u64) -> String {
 		if budget_full < 2 { expfsck = "-"; }
 	}
 	let qs = gen_queries(rng, &t, root);
-	format!("res place={} va={} depth={} budget={} sec={} q={} exp={} expfsck={} ico={}", place, va, depth, budget, hex(&sec), join(&qs, ","), exp, expfsck, ico.map(|v| hex(&v)).unwrap_or("-".to_string()))
+	format!("res place={} va={} depth={} budget={} sec={} q={} exp={} expfsck={} ico={} cur={}", place, va, depth, budget, hex(&sec), join(&qs, ","), exp, expfsck, ico.map(|v| hex(&v)).unwrap_or("-".to_string()), cur.map(|v| hex(&v)).unwrap_or("-".to_string()))
+}
+
+/// Sections that sit exactly on the two limits of the consistency check and the tree formatter (F16 repair):
+/// * a chain of 30..34 nested directories (the deepest one is entered at depth n-1; 32 levels pass, 33 fail), optionally
+///   with a second entry per level so that the limit is not reached by the budget first;
+/// * a root with k entries that all point at one shared directory with m entries (each an empty directory): k + k*m
+///   entries are visited; trailing padding sets len/8 to that number minus one, that number, or that number plus one.
+fn gen_limits(rng: &mut Rng) -> String {
+	let mut t = Tree::default();
+	let va: u32 = 0x1000 * rng.range(1, 64) as u32;
+	let root;
+	let mut tail_pad = 0usize;
+	let expfsck;
+	if rng.chance(1, 2) {
+		let levels = *rng.pick(&[30usize, 31, 31, 32, 32, 32, 33, 33, 34]);
+		let leaf_data = rng.chance(1, 2);
+		let wide = rng.chance(1, 3);
+		let first = t.dir();
+		let mut cur = first;
+		for _ in 1..levels {
+			let next = t.dir();
+			let mut ents = vec![Ent { name: NameSpec::Id(1 + rng.below(3) as u32), tgt: Tgt::Dir(next) }];
+			if wide {
+				let d = t.data(vec![7], 0);
+				ents.push(Ent { name: NameSpec::Id(9), tgt: Tgt::Data(d) });
+			}
+			t.dirs[cur].ents = ents;
+			cur = next;
+		}
+		if leaf_data {
+			let d = t.data(vec![1, 2, 3, 4], 1252);
+			t.dirs[cur].ents = vec![Ent { name: NameSpec::Id(1033), tgt: Tgt::Data(d) }];
+		}
+		root = first;
+		expfsck = if levels <= 32 { "ok" } else { "err" };
+	}
+	else {
+		let k = rng.range(2, 6) as usize;
+		let m = rng.range(1, 7) as usize;
+		let r = t.dir();
+		let shared = t.dir();
+		let empty = t.dir();
+		t.dirs[r].ents = (0..k).map(|j| Ent { name: NameSpec::Id(1 + j as u32), tgt: Tgt::Dir(shared) }).collect();
+		t.dirs[shared].ents = (0..m).map(|j| Ent { name: NameSpec::Id(10 + j as u32), tgt: Tgt::Dir(empty) }).collect();
+		let visited = k + k * m;
+		let base = (16 + 8 * k) + (16 + 8 * m) + 16; // the three directories, nothing else
+		let delta: i64 = *rng.pick(&[-1i64, 0, 0, 1]);
+		let want = visited as i64 + delta; // the budget len/8 the section shall have
+		let have = (base / 8) as i64;
+		let budget = if want >= have { want } else { have };
+		tail_pad = (budget - have) as usize * 8 + rng.below(8) as usize;
+		root = r;
+		expfsck = if visited as i64 <= budget { "ok" } else { "err" };
+	}
+	let lay = t.layout(va, 0);
+	let mut sec = lay.bytes.clone();
+	sec.extend(std::iter::repeat(0u8).take(tail_pad));
+	let budget = (sec.len() / 8) as u64;
+	let mut out = Vec::new();
+	let mut b = budget;
+	t.expect(&lay, root, 0, 32, &mut b, &mut out);
+	let qs = gen_queries(rng, &t, root);
+	format!("res place=0 va={} depth=32 budget={} sec={} q={} exp={} expfsck={} ico=- cur=-", va, budget, hex(&sec), join(&qs, ","), join(&out, ","), expfsck)
 }
 
 fn is_reachable(t: &Tree, root: usize, target: usize) -> bool {
@@ -647,6 +829,7 @@ fn is_reachable(t: &Tree, root: usize, target: usize) -> bool {
 fn gen_pe(rng: &mut Rng) -> String {
 	let mut t = Tree::default();
 	let mut ico = None;
+	let mut cur = None;
 	// one in three: an ACYCLIC chain of 20..31 directories in which every level holds 2..3 entries that all point at the
 	// next level (k^depth paths through a few hundred bytes).  Together with a data-directory Size far beyond the bytes
 	// that exist this is the shape on which a work budget taken from the declared Size instead of the section that was
@@ -665,7 +848,7 @@ fn gen_pe(rng: &mut Rng) -> String {
 		let d = t.data(vec![1, 2, 3, 4], 0);
 		t.dirs[cur].ents = vec![Ent { name: NameSpec::Id(1), tgt: Tgt::Data(d) }];
 		first
-	} else { gen_typed(rng, &mut t, &mut ico) };
+	} else { gen_typed(rng, &mut t, &mut ico, &mut cur) };
 	let rva: u32 = *rng.pick(&[0x1000u32, 0x1000, 0x1004, 0x1002, 0x1100]);
 	let lay = t.layout(rva, 0);
 	let len = 0x1000 + 0x400 + lay.bytes.len();
@@ -862,6 +1045,12 @@ fn observe(c: &Ctx, res: Resources<'_>, depth: u32, budget: u64, qs: &[&str]) ->
 		assert_work("Display for Resources", t0, c.len);
 		1 + cnt.0
 	};
+	// the text itself (UTF-8), compared with the model of art.rs; long texts by their length and their first 4096 bytes
+	let text = {
+		let t = format!("{}", res);
+		let b = t.as_bytes();
+		format!("{}/{}", b.len(), hex(&b[..b.len().min(4096)]))
+	};
 	let mut qr: Vec<String> = Vec::new();
 	for q in qs {
 		let p: Vec<&str> = q.split(':').collect();
@@ -914,7 +1103,7 @@ fn observe(c: &Ctx, res: Resources<'_>, depth: u32, budget: u64, qs: &[&str]) ->
 			format!("{}/{}{}{}", hex(s.as_bytes()), PartialEq::<str>::eq(&n, s.as_str()) as u8, (Name::Str(&s) == n) as u8, (n == Name::Str(&s)) as u8)
 		})
 		.collect();
-	format!("root={} walk={} fsck={} lines={} q={} man={} ver={} icons={} cursors={} grp={} disp={}", roots, join(&items, ","), fsck, lines, join(&qr, ","), man, ver, join(&icons, ","), join(&cursors, ","), join(&grp, ","), join(&disp, ","))
+	format!("root={} walk={} fsck={} lines={} q={} man={} ver={} icons={} cursors={} grp={} disp={} text={}", roots, join(&items, ","), fsck, lines, join(&qr, ","), man, ver, join(&icons, ","), join(&cursors, ","), join(&grp, ","), join(&disp, ","), text)
 }
 
 fn run(case: &str) -> String {
